@@ -46,7 +46,26 @@ inductive DimVal
 def cmp3 {α : Type} [LT α] [DecidableLT α] (a b : α) : Int :=
   if b < a then 1 else if a < b then -1 else 0
 
-/-- core/compare.go `compare(a, b interface{}) int`; `none` = the type assertion on `b` panics. -/
+/-- `reflect.TypeOf(v).String()` of the Go integer types -/
+def IntKind.goName : IntKind → String
+  | .byte => "uint8" | .u16 => "uint16" | .u32 => "uint32" | .u64 => "uint64" | .uint => "uint"
+  | .i8 => "int8" | .i16 => "int16" | .i32 => "int32" | .i64 => "int64" | .int => "int"
+
+/-- `reflect.TypeOf(v).String()`; every `other` value the harness produces is a `[]byte` -/
+def DimVal.typeName : DimVal → String
+  | .nil => "<nil>"
+  | .bool _ => "bool"
+  | .int k _ => k.goName
+  | .float true _ => "float32"
+  | .float false _ => "float64"
+  | .str _ => "string"
+  | .time _ => "time.Time"
+  | .other _ => "[]uint8"
+
+/-- core/compare.go `compare(a, b interface{}) int` (after /repo 8a9a760: values of different
+    dynamic types are ordered by the name of their type; before, the unchecked assertion
+    `b.(T)` panicked there, and the `uint` case asserted `uint64`).  the result is never `none`
+    (= a type assertion panics) any more; the `Option` is kept so that `lessP` keeps its shape. -/
 def cmpVal (a b : DimVal) : Option Int :=
   match a, b with
   -- if a == nil { if b != nil { return -1 }; return 0 }
@@ -54,27 +73,19 @@ def cmpVal (a b : DimVal) : Option Int :=
   | .nil, _ => some (-1)
   -- if b == nil { if a != nil { return 1 }; return 0 }
   | _, .nil => some 1
-  -- case bool: tvb := b.(bool)
-  | .bool ta, .bool tvb =>
-      if ta && !tvb then some 1 else if !ta && tvb then some (-1) else some 0
-  | .bool _, _ => none
-  -- case uint: tvb := uint(b.(uint64))   (sic: asserts uint64, not uint)
-  | .int .uint ta, .int .u64 tvb => some (cmp3 ta tvb)
-  | .int .uint _, _ => none
-  -- case byte/uint16/uint32/uint64/int8/int16/int32/int64/int: tvb := b.(same type)
-  | .int k ta, .int k' tvb => if k = k' then some (cmp3 ta tvb) else none
-  | .int _ _, _ => none
-  -- case float32 / float64
-  | .float s ta, .float s' tvb => if s = s' then some (cmp3 ta tvb) else none
-  | .float _ _, _ => none
-  -- case string
-  | .str ta, .str tvb => some (cmp3 ta tvb)
-  | .str _, _ => none
-  -- case time.Time: After / Before
-  | .time ta, .time tvb => some (cmp3 ta tvb)
-  | .time _, _ => none
-  -- no case matches: falls out of the switch, `return 0` (b is never inspected)
-  | .other _, _ => some 0
+  | a, b =>
+    -- if typeOfA != typeOfB { return strings.Compare(typeOfA.String(), typeOfB.String()) }
+    if a.typeName ≠ b.typeName then some (cmp3 a.typeName b.typeName)
+    else match a, b with
+      | .bool ta, .bool tvb =>
+          if ta && !tvb then some 1 else if !ta && tvb then some (-1) else some 0
+      | .int _ ta, .int _ tvb => some (cmp3 ta tvb)
+      | .float _ ta, .float _ tvb => some (cmp3 ta tvb)
+      | .str ta, .str tvb => some (cmp3 ta tvb)
+      | .time ta, .time tvb => some (cmp3 ta tvb)
+      -- no case matches (`other`): falls out of the switch, `return 0`.  (The remaining
+      -- constructor combinations cannot have equal type names; `b.(T)` cannot fail here.)
+      | _, _ => some 0
 
 /-- core.OrderBy -/
 structure OrderBy where
